@@ -21,9 +21,9 @@ READY = True
 
 # types with a theorem in Props/C13.v
 PROVED = ["WaitGroup", "Collector", "Synchronized", "Atomic", "Once", "Map", "Pool", "Queue", "Deque", "Set",
-          "ttlExec", "Wrappers", "Broker"]
+          "limitExec", "ttlExec", "Wrappers", "Broker"]
 # translated and reported, but not provable by a lockset argument (see LEVEL_NOTE); exercised by the -race driver only
-UNPROVED = ["limitExec"]
+UNPROVED = []
 
 TRUSTED = [
     "the translator /verif/translator (Go, go/ast only): its normalisation of lock idioms (defer, Lock/With helpers inlined from source), "
@@ -31,6 +31,11 @@ TRUSTED = [
     "reached through guarded fields (regionMethods) and of trusted concurrent primitives; its output for the current tree is kept in coq/Gen/expected/",
     "Go's sync.Mutex / sync.RWMutex / sync.Cond (atomic unlock-and-park) / sync.Once (modelled as an exclusive section followed by a shared hold) "
     "/ sync.Map / sync.Pool / sync/atomic / channels are modelled, not verified",
+    "limitExec fast path (Worker/Producer/Processor/Future .Limit): the read of the cached result inside `if counter.CompareAndSwap(n, n)` is "
+    "modelled as an atomic (translator rule 11): it is ordered after the last write by the atomic store of the counter because the slow path "
+    "no longer writes once the counter holds n; this value-dependent publication argument is NOT machine-checked (the slow path is)",
+    "captured locals: a local of a still-running function that an escaping closure assigns becomes an unguarded pseudo-field (translator rule 10); "
+    "ordering of such accesses by channel operations is not modelled (a correct hand-off would be rejected, never accepted silently)",
     "the guard map coq/Skel/Guards.v is NOT trusted: lockset_sound holds for every guard map",
     "the Go race detector (used only to find a replayable failing input; it has no false positives)",
 ]
@@ -48,11 +53,10 @@ EXPLANATION = ("coq/Props/C13.v: for every covered type, for any number of clien
 LEVEL_TEXT = ("Machine-checked Coq theorem lockset_sound (all skeleton programs, all guard maps, any number of threads, every interleaving; "
               "Mutex, RWMutex, Cond.Wait, goroutine spawn, sync.Once) instantiated by reflection on skeletons re-extracted from the Go source "
               "on every run: C13_race_free_<T> for WaitGroup, Collector, Synchronized, Atomic, Once, Map, Pool, Queue, Deque, Set, ttlExec, "
-              "the Lock/WithLock/Once/TTL wrappers and Broker.")
+              "limitExec and the Limit wrappers (slow path), the Lock/WithLock/Once/TTL wrappers and Broker.")
 LEVEL_NOTE = ("Full over the skeleton abstraction; the source-to-skeleton translator is trusted (syntactic, fails loudly with Unknown). "
-              "Not covered by the proof: limitExec and the Limit wrappers built on it (their fast path reads the cached result after an atomic "
-              "load observed the final counter value - publication by atomics is outside lockset reasoning; they are translated, reported "
-              "as unproved and exercised by the -race driver), pubsub.Distributor as a value type (its closures are covered as entries of "
+              "Not covered by the proof: the lock-free fast path of limitExec / the Limit wrappers (publication by an atomic counter, "
+              "trusted, see trusted_base; their slow path IS covered), pubsub.Distributor as a value type (its closures are covered as entries of "
               "Queue/Deque), and the known finding C13:Collector.Resolve:live-stack (that escape is excluded from the skeleton).")
 TECHNIQUE = "source-to-model translator (go/ast) + Coq-verified lockset checker (reflection, vm_compute) + -race pairwise drivers for replay"
 
